@@ -44,6 +44,11 @@ pub struct Opts {
     pub threads: usize,
     /// wall-clock budget in seconds for the whole exploration (0 = none)
     pub wall_budget_s: u64,
+    /// set by `explore_all`: wall-clock deadline (ms since the epoch) after which workers stop (0 = none)
+    pub deadline_ms: u64,
+}
+pub fn now_ms() -> u64 {
+    std::time::SystemTime::now().duration_since(std::time::UNIX_EPOCH).map(|d| d.as_millis() as u64).unwrap_or(0)
 }
 impl Default for Opts {
     fn default() -> Self {
@@ -60,6 +65,7 @@ impl Default for Opts {
             panic_is_violation: false,
             threads: 16,
             wall_budget_s: 0,
+            deadline_ms: 0,
         }
     }
 }
@@ -350,6 +356,9 @@ pub fn explore_cfg<O: Observer>(ci: usize, cfg: &Cfg, alpha: &Alphabet, o: &Opts
                             res.transitions += 1;
                             if res.transitions & 0xFFFF == 0 {
                                 crate::supervise::beat();
+                                if o.deadline_ms > 0 && now_ms() > o.deadline_ms {
+                                    stop.store(true, Ordering::Relaxed);
+                                }
                             }
                             let mk_violation = |msg: String, kind: &str, nodes: &[Node]| -> Violation {
                                 let mut ops = history(nodes, *nid, alpha);
@@ -552,6 +561,11 @@ pub fn explore_all<O: Observer>(cfgs: &[Cfg], alpha_for: &(dyn Fn(&Cfg) -> Alpha
     let stop = AtomicBool::new(false);
     let nviol = AtomicUsize::new(0);
     let t0 = std::time::Instant::now();
+    let mut o2 = o.clone();
+    if o.wall_budget_s > 0 {
+        o2.deadline_ms = now_ms() + o.wall_budget_s * 1000;
+    }
+    let o = &o2;
     let results: Vec<Vec<(usize, CfgResult)>> = std::thread::scope(|sc| {
         let hs: Vec<_> = (0..o.threads.max(1))
             .map(|ti| {
